@@ -1,4 +1,5 @@
 #!/bin/bash
-# multi-seed quick sweep
+# multi-seed quick sweep: tools/sweep_quick.sh [seed ...]   (default 21..26)
 cd "$(dirname "$0")/.."
-for s in 21 22 23 24 25 26; do for i in 01 02 03 04 05 06 07 08 09 10 11 12 13 14 15 16 17 18 19 20; do echo "== C$i seed $s"; VERIF_SEED=$s timeout 1800 ./check C$i --tier quick 2>&1 | grep -v "^KNOWN" | tail -3 | cut -c1-400; done; done
+SEEDS="${@:-21 22 23 24 25 26}"
+for s in $SEEDS; do for i in 01 02 03 04 05 06 07 08 09 10 11 12 13 14 15 16 17 18 19 20; do echo "== C$i seed $s"; VERIF_SEED=$s timeout 1800 ./check C$i --tier quick 2>&1 | grep -v "^KNOWN" | tail -3 | cut -c1-400; done; done
